@@ -7,6 +7,7 @@ package core
 import (
 	"fmt"
 	"sort"
+	"strings"
 
 	"verif/sim/choice"
 )
@@ -43,6 +44,22 @@ type Result struct {
 	// Abandoned is set when the run left a goroutine of the code under test spinning (non-termination);
 	// the worker stops exploring after such a run.
 	Abandoned bool
+	scrub     []string
+}
+
+// Scrub registers a run-specific string (a temporary directory name) that is replaced by
+// "<sandbox>" in every logged line and violation text, so that texts are identical in every execution.
+func (r *Result) Scrub(s string) {
+	if s != "" {
+		r.scrub = append(r.scrub, s)
+	}
+}
+
+func (r *Result) scrubbed(line string) string {
+	for _, s := range r.scrub {
+		line = strings.ReplaceAll(line, s, "<sandbox>")
+	}
+	return line
 }
 
 // NewResult returns an empty result.
@@ -52,7 +69,7 @@ func NewResult() *Result {
 
 // Logf appends to the bounded trace.
 func (r *Result) Logf(format string, a ...interface{}) {
-	line := fmt.Sprintf(format, a...)
+	line := r.scrubbed(fmt.Sprintf(format, a...))
 	r.Digest = choice.Mix(r.Digest, choice.MixString(line))
 	r.Events++
 	if len(r.Trace) < 400 {
@@ -67,7 +84,7 @@ func (r *Result) Fail(prop, oracle, sig, format string, a ...interface{}) {
 	if r.Violation != nil {
 		return
 	}
-	r.Violation = &Violation{Property: prop, Oracle: oracle, Signature: sig, Detail: fmt.Sprintf(format, a...)}
+	r.Violation = &Violation{Property: prop, Oracle: oracle, Signature: sig, Detail: r.scrubbed(fmt.Sprintf(format, a...))}
 	r.Logf("VIOLATION %s", r.Violation)
 }
 
